@@ -17,9 +17,18 @@ def main():
     try:
         ad = importlib.import_module(f"harness.envs.{mod}").Adapter()
         cfg = [c for c in ad.configs(tier) if c["id"] == cfg_id][0]
+        from harness.inject import Unavailable
         from harness.record import Recorder
 
-        rec = Recorder(ad, cfg, tier, int(seed), with_leaves=bool(int(wl))).run()
+        try:
+            rec = Recorder(ad, cfg, tier, int(seed), with_leaves=bool(int(wl))).run()
+        except Unavailable as e:
+            # the injection point of an INJ configuration is gone (private helper renamed): record nothing for it
+            with open(out, "w") as f:
+                f.write(json.dumps({"k": "hdr", "env": ad.name, "cfgid": cfg["id"], "cfg": {}, "skipped": str(e)}) + "\n")
+            print(json.dumps({"ok": True, "events": 0, "probes": 0, "episodes": 0, "wall": round(time.time() - t0, 2),
+                              "lines": 1, "policy_fallbacks": 0, "skipped": str(e)}))
+            return
         rec.write(out)
         print(json.dumps({"ok": True, "events": rec.n_events, "probes": rec.n_probe, "episodes": rec.n_episodes,
                           "wall": round(time.time() - t0, 2), "lines": len(rec.lines), "policy_fallbacks": rec.policy_fallbacks}))
